@@ -33,9 +33,7 @@ import (
 var convAssertAllowed = map[string]string{
 	"stackTypeAliasConverter":     "the converter itself (native fast path, and the assertion of the converted value)",
 	"conditionTypeAliasConverter": "the converter itself (native fast path, and the assertion of the converted value)",
-	"stack.isNesting":             "positive fast path only (case Stack: true); every other value goes through the converter in the default branch",
-	"(*stack).canPushNester":      "positive fast path only (a native Stack is a Stack, initialised or not); every other value goes through the converter",
-	"condition.defaultAssertionExpressionHandler": "positive fast path only (a native Stack is a Stack, initialised or not); every other value goes through the converter",
+	"isStackKind":                 "the type-level test itself: positive fast path for the native type; every other value is judged by ConvertibleTo on its pointer-flattened type (R-TT isStackKind)",
 }
 
 func (c *Ctx) ruleConv() {
@@ -128,11 +126,11 @@ func (c *Ctx) ruleConv() {
 		{"condition.unmarshalDefault", []string{"stackTypeAliasConverter"}},
 		{"stack.traverseStack", []string{"stackTypeAliasConverter"}},
 		{"stack.traverseStackInCondition", []string{"conditionTypeAliasConverter"}},
-		{"stack.isNesting", []string{"stackTypeAliasConverter"}},
-		{"condition.isNesting", []string{"stackTypeAliasConverter"}},
+		{"stack.isNesting", []string{"isStackKind"}},
+		{"condition.isNesting", []string{"isStackKind"}},
 		{"Condition.Len", []string{"stackTypeAliasConverter"}},
-		{"(*stack).canPushNester", []string{"stackTypeAliasConverter"}},
-		{"condition.defaultAssertionExpressionHandler", []string{"stackTypeAliasConverter"}},
+		{"(*stack).canPushNester", []string{"isStackKind"}},
+		{"condition.defaultAssertionExpressionHandler", []string{"isStackKind"}},
 		{"Stack.Defrag", []string{"stackTypeAliasConverter", "conditionTypeAliasConverter"}},
 		{"Stack.Transfer", []string{"stackTypeAliasConverter"}},
 		{"Stack.IsEqual", []string{"stackTypeAliasConverter"}},
